@@ -673,7 +673,7 @@ pub fn c03_worker(ctx: &mut Ctx) {
     install_panic_hook();
     let seed = ctx.seed;
     let thorough = ctx.tier == Tier::Thorough;
-    let inputs_per_fn = ctx.tier.pick(3, 10);
+    let inputs_per_fn = ctx.tier.pick(3, 30);
     // W4: operator wrappers (dense in arithmetic hints) + W3 snippets.
     let mut sources: Vec<(String, String)> = crate::opmatrix::op_cases()
         .iter()
